@@ -471,7 +471,13 @@ class Circuit:
                 and blk.init_timeout > 0.0]
         if start_tasks:
             self.log_debug("Initializing async sequential blocks")
-            await self._run_tasks("async init", start_tasks)
+            try:
+                await self._run_tasks("async init", start_tasks)
+            finally:
+                # if the initialization was interrupted, do not leave the tasks behind
+                for _, task, _ in start_tasks:
+                    if not task.done():
+                        task.cancel()
 
     @staticmethod
     def init_sblock(blk: block.SBlock, full: bool) -> None:
